@@ -275,6 +275,13 @@ def observe (s : DState) (cmd : String) (t lhs rhs : Array String) : DState :=
       let vid := int! (lhs[1]?.getD "0")
       let s := setPending s (.alloc vid k (lhs[3]? == some "1") (int! (lhs[4]?.getD "0")) (int! (lhs[5]?.getD "0")) (int! (lhs[6]?.getD "0")) oc)
       if oc == "ok" && vid ≥ 0 then { s with ikind := setAt s.ikind vid.toNat k } else s
+  else if cmd == "zerobuf" then
+    -- the zero value `signal.Buffer[T]{}`: no channels, no storage, bit depth 0 (no allocation property applies)
+    match Kind.ofString? (lhs[2]?.getD "") with
+    | none => s
+    | some k =>
+      let vid := int! (lhs[1]?.getD "0")
+      if vid ≥ 0 then { s with ikind := setAt s.ikind vid.toNat k } else s
   else if cmd == "slice" then
     let vid := int! (lhs[1]?.getD "0"); let src := int! (lhs[2]?.getD "0")
     let s := setPending s (.slice vid src (int! (lhs[3]?.getD "0")) (int! (lhs[4]?.getD "0")) oc)
@@ -395,6 +402,15 @@ def modelStep (s : DState) (cmd : String) (t lhs rhs : Array String) (line : Str
             if int! (lhs[1]?.getD "0") == s.bufs.size then { s with heap := h, bufs := s.bufs.push (some b) }
             else s.diverge "alloc-vid" (toString s.bufs.size) (lhs[1]?.getD "")
           else s.diverge "alloc" "ok" (implOutcome rhs)
+    else if cmd == "zerobuf" then
+      match Kind.ofString? (lhs[2]?.getD "") with
+      | none => s.diverge "zerobuf-parse" "-" line
+      | some k =>
+        match alloc s.heap k false 0 0 0 with
+        | none => s.diverge "zerobuf" "-" line
+        | some (h, b) =>
+          if int! (lhs[1]?.getD "0") == s.bufs.size then { s with heap := h, bufs := s.bufs.push (some { b with depth := 0 }) }
+          else s.diverge "zerobuf-vid" (toString s.bufs.size) (lhs[1]?.getD "")
     else if cmd == "slice" then
       let src := int! (lhs[2]?.getD "0"); let a := int! (lhs[3]?.getD "0"); let e := int! (lhs[4]?.getD "0")
       match getBuf s src with
